@@ -618,6 +618,31 @@ func ruleRefsOfLiteral(root *packages.Package) map[string][]string {
 	return out
 }
 
+// errIdent: the identifier that receives the error (last target) of an assignment.
+func errIdent(as *ast.AssignStmt) *ast.Ident {
+	if len(as.Lhs) == 0 {
+		return nil
+	}
+	id, _ := as.Lhs[len(as.Lhs)-1].(*ast.Ident)
+	return id
+}
+
+// storesTo: node contains an assignment (not a new definition) to the variable obj.
+func storesTo(info *types.Info, node ast.Node, obj types.Object) bool {
+	found := false
+	ast.Inspect(node, func(n ast.Node) bool {
+		if as, ok := n.(*ast.AssignStmt); ok {
+			for _, l := range as.Lhs {
+				if id, ok := l.(*ast.Ident); ok && info.Uses[id] == obj {
+					found = true
+				}
+			}
+		}
+		return !found
+	})
+	return found
+}
+
 func c13Exit(c *Ctx, g *load.G) {
 	r := c.R
 	root := g.Pkg("")
@@ -739,6 +764,11 @@ func c13Exit(c *Ctx, g *load.G) {
 							} else {
 								for _, later := range list[i+2:] {
 									if as2, ok3 := later.(*ast.AssignStmt); ok3 && assignsErrFromCall(as2) {
+										break
+									}
+									// the same variable is overwritten inside a later statement (an if-init `_, err = f()`): the
+									// error of this call is gone by the time a later test reads it
+									if errObj := info.ObjectOf(errIdent(x)); errObj != nil && storesTo(info, later, errObj) {
 										break
 									}
 									if is2, ok3 := later.(*ast.IfStmt); ok3 && is2.Init == nil && nospace(is2.Cond) == "err!=nil" && endsInNonZeroExit(is2.Body) {
